@@ -6,7 +6,9 @@ from pyiron_workflow import as_function_node, as_macro_node
 
 from . import nodes
 
-BADSET: set = set()
+# what the node function does on an input (deterministic): "exc" | "kbd" | "fatal" | "procbad"; default "ok"
+BEH: dict = {}
+BADSET: set = set()  # kept for old replay files: inputs that raise Boom
 CALLS = {"c": [], "u": []}
 WHO = "c"
 
@@ -15,18 +17,34 @@ class Boom(RuntimeError):
     pass
 
 
-def reset(bad):
+class Fatal(BaseException):
+    """a BaseException that is neither an Exception nor KeyboardInterrupt (SystemExit-like)"""
+
+
+def reset(beh):
+    BEH.clear()
     BADSET.clear()
-    BADSET.update(bad)
+    if isinstance(beh, dict):
+        BEH.update({int(k): v for k, v in beh.items()})
+    else:  # old style: list of raising inputs
+        BEH.update({int(v): "exc" for v in beh})
     CALLS["c"].clear()
     CALLS["u"].clear()
 
 
 @as_function_node("o", validate_output_labels=False)
-def G(x):
+def G(x) -> tuple:
     CALLS[WHO].append(x)
-    if x in BADSET:
+    k = BEH.get(x, "ok")
+    if k == "exc":
         raise Boom(f"g({x})")
+    if k == "kbd":
+        raise KeyboardInterrupt()
+    if k == "fatal":
+        raise Fatal()
+    if k == "procbad":
+        r = ["g", x]  # not a tuple: the typed output channel refuses it inside process_run_result
+        return r
     r = ("g", x)
     return r
 
@@ -37,3 +55,42 @@ def M3(self, a="d", b="d", c="d"):
     self.n1 = nodes.F1(a=self.n0)
     self.n2 = nodes.F2(a=self.n1, b=self.n0)
     return self.n2
+
+
+# ---- nested composites for the tree cases: labels n<k> (function nodes) and m<k> (macros) ----------------
+
+
+@as_macro_node("o")
+def MA(self, a="d", b="d"):
+    """three function nodes"""
+    self.n0 = nodes.F0(a=a, b=b)
+    self.n1 = nodes.F1(a=self.n0, b=b)
+    self.n2 = nodes.F2(a=self.n1, b=self.n0)
+    return self.n2
+
+
+@as_macro_node("o")
+def MB(self, a="d"):
+    """a macro holding a macro"""
+    self.n0 = nodes.F3(a=a)
+    self.m0 = MA(a=self.n0, b=a)
+    self.n1 = nodes.F4(a=self.m0, b=self.n0)
+    return self.n1
+
+
+@as_macro_node("o")
+def MC(self, a="d", b="d"):
+    """macro -> macro -> macro -> function node"""
+    self.m1 = MB(a=a)
+    self.n0 = nodes.F5(a=self.m1, b=b)
+    return self.n0
+
+
+@as_macro_node("o")
+def MD(self, a="d"):
+    """a single function node (it is the last child: a replacement does not reorder anything)"""
+    self.n0 = nodes.F6(a=a)
+    return self.n0
+
+
+MACROS = {"MA": MA, "MB": MB, "MC": MC, "MD": MD}
